@@ -25,7 +25,7 @@ use rustic_core::repofile::{
 use rustic_core::verif::check as hk;
 use rustic_core::{
     BackupOptions, CheckOptions, ConfigOptions, Id, IndexedFull, LsOptions, OpenStatus, ReadSource, ReadSourceEntry,
-    Repository, RepositoryOptions, RusticResult,
+    Repository, RusticResult,
 };
 
 // ---------------------------------------------------------------------------------------------------------
@@ -43,7 +43,7 @@ pub fn sha_hex(b: &[u8]) -> String {
 
 /// open without the on-disk cache (a cache shared between cases would serve undamaged copies)
 pub fn open_nc(h: &RepoHandle) -> RusticResult<Repository<OpenStatus>> {
-    h.open_with(&RepositoryOptions::default().no_cache(true))
+    h.open_with(&RepoHandle::default_opts())
 }
 
 /// A source consisting of a single file at the snapshot root (what `backup -` produces): the root tree
@@ -507,7 +507,7 @@ pub fn init_repo(cfg: &ConfigOptions, v1: bool) -> Option<RepoHandle> {
     let h = RepoHandle { be: MemBackend::new(), hot: None, key: MasterKey::new() };
     let mut config = rustic_core::repofile::ConfigFile::new(1, Id::random().into(), 0x003D_A335_8B4D_C173);
     cfg.apply(&mut config).map_err(|e| dbg(&e)).ok()?;
-    let repo = Repository::new(&RepositoryOptions::default().no_cache(true), &h.backends()).map_err(|e| dbg(&e)).ok()?;
+    let repo = Repository::new(&RepoHandle::default_opts(), &h.backends()).map_err(|e| dbg(&e)).ok()?;
     _ = repo
         .init_with_config(&rustic_core::Credentials::Masterkey(h.key.clone()), &rustic_core::KeyOptions::default(), config)
         .map_err(|e| dbg(&e))
